@@ -7,4 +7,7 @@ func init() {
 	setProp("C05", "DESIGN.md §4 C05",
 		"Decides: AppendWKT on the zero Geometry cannot dereference nil (tagged-pointer rule shared with C20).",
 		"value-level round trip of arbitrary ordinates, the grammar of the emitted text beyond keyword/tag tables.")
+	setProp("C08", "DESIGN.md §4 C08",
+		"Decides: no allocation reachable from the 26+ decoder entry points is sized by an input-supplied count without a dominating bound against the remaining input length.",
+		"absence of every runtime panic in all callees; panics inside encoding/json and text/scanner; that returned geometries re-encode without panicking.")
 }
